@@ -215,6 +215,13 @@ def symbolModule (s : Sym) (m : Array Bool) (r c : Nat) : Bool :=
   else if cc = s.regCols + 1 then rr % 2 == 1
   else m.getD ((r / (s.regRows + 2) * s.regRows + (rr - 1)) * s.mapCols + (c / (s.regCols + 2) * s.regCols + (cc - 1))) false
 
+/-- which cell of the mapping matrix symbol module (r, c) shows: `none` for finder / clock-track modules -/
+def symbolCell (s : Sym) (r c : Nat) : Option Nat :=
+  let rr := r % (s.regRows + 2)
+  let cc := c % (s.regCols + 2)
+  if cc = 0 ∨ rr = s.regRows + 1 ∨ rr = 0 ∨ cc = s.regCols + 1 then none
+  else some ((r / (s.regRows + 2) * s.regRows + (rr - 1)) * s.mapCols + (c / (s.regCols + 2) * s.regCols + (cc - 1)))
+
 /-- the symbol as rows of modules (true = dark), from a mapping matrix -/
 def symbolOfMapping (s : Sym) (m : Array Bool) : List (List Bool) :=
   (List.range s.rows).map (fun r => (List.range s.cols).map (fun c => symbolModule s m r c))
